@@ -148,7 +148,7 @@ def run_input(ctx, i):
                 o_.regularization = None
                 d_["regularized"] = False
     else:
-        objs, desc = gen_aa.linear_objects(aa, rng, case, allow_unregularized=True, reg_factory=regf)
+        objs, desc = gen_aa.linear_objects(aa, rng, case, allow_unregularized=True, reg_factory=regf, overrides=True)
     if not only_functions and not any(d["kind"] != "func" for d in desc):            # the w-tilde formalism needs at least one mapper
         mp, d = gen_aa.mapper(aa, rng, case["mask"], case["ds"].grids.pixelization.over_sampler, "rect", aa.reg.Constant(coefficient=1.0))
         d.update({"params": int(mp.params), "regularized": True})
